@@ -198,18 +198,19 @@ func coqRes(class string) string {
 
 // ---- harness state ----
 type hs struct {
-	ctx    *common.Ctx
-	s      *srv.Server
-	conns  []*hconn.Conn
-	views  []string // baseline fresh view per user
-	pool   []map[string]int
-	newN   int
-	cases  []string
-	caseID int
-	steps  []string // Coq steps of the current scenario
-	viewN  int
-	marker string   // marker prefix of the next appended message (user of the acting connection)
-	log    []string // wire log of the current scenario (for failure reports)
+	ctx       *common.Ctx
+	s         *srv.Server
+	conns     []*hconn.Conn
+	views     []string // baseline fresh view per user
+	pool      []map[string]int
+	newN      int
+	cases     []string
+	caseID    int
+	steps     []string // Coq steps of the current scenario
+	viewN     int
+	idHistory []string // what the ID-isolation scenario has done so far (for failure reports)
+	marker    string   // marker prefix of the next appended message (user of the acting connection)
+	log       []string // wire log of the current scenario (for failure reports)
 }
 
 func nameHash(s string) int {
